@@ -36,7 +36,19 @@ def deep(I, ctx, v, memo=None):
         r.items = [deep(I, ctx, x, memo) for x in v.items]
         return r
     if isinstance(v, SymList):
-        return SymList(v.seq)
+        r = SymList(v.seq)          # elements of closure lists are immutable scalars
+        memo[id(v)] = r
+        return r
+    from .pybuiltins import ObjDictView
+    if isinstance(v, ObjDictView):
+        # deepcopy(obj.__dict__): a fresh dict of deep copies of the attributes
+        from .interp import hkey
+        d = DictVal()
+        memo[id(v)] = d
+        for k, x in v.obj.fields.items():
+            d.items[hkey(k)] = deep(I, ctx, x, memo)
+            d.keyvals[hkey(k)] = k
+        return d
     if isinstance(v, DictVal):
         d = DictVal()
         memo[id(v)] = d
